@@ -239,10 +239,11 @@ def register(OPS, drv):
         spec = dict(job)
         cfg = dict(spec.get("config") or {})
         pg = dict(cfg.get("pygopherd", {}))
-        pg.update({"servername": "gopher.example", "advertisedport": "70", "timeout": "20"})
+        pg.update({"servername": "gopher.example", "advertisedport": "70", "timeout": str(job.get("server_timeout", 20))})
         cfg["pygopherd"] = pg
         spec["config"] = cfg
         w = drv.World(spec)
+        stall_limit = float(job.get("stall_limit", 20))
         crt = os.path.join(drv.REPO, "testdata", "demo.crt")
         key = os.path.join(drv.REPO, "testdata", "demo.key")
         ctx = ssl.create_default_context(ssl.Purpose.CLIENT_AUTH)
@@ -261,18 +262,48 @@ def register(OPS, drv):
                 err = None
                 del drv._logsink[:]
                 t0 = time.time()
+                closed = None
                 s = socket.create_connection(srv.server_address[:2], timeout=20)
                 try:
-                    if r.get("tls"):
-                        s = cctx.wrap_socket(s)
-                    s.sendall(drv.s2b(r["data"]))
-                    if not r.get("tls"):
-                        s.shutdown(socket.SHUT_WR)      # the request is complete: a header block may end at EOF
-                    while True:
-                        d = s.recv(1 << 16)
-                        if not d:
-                            break
-                        got.append(d)
+                    if r.get("stall"):
+                        # a client that stops sending here and keeps the connection open: it must be answered,
+                        # or at least let go, within the server's own timeout
+                        if r.get("tls"):
+                            s = cctx.wrap_socket(s)
+                        if r["data"]:
+                            s.sendall(drv.s2b(r["data"]))
+                        closed = False
+                        deadline = time.time() + stall_limit
+                        while time.time() < deadline:
+                            s.settimeout(max(0.05, deadline - time.time()))
+                            try:
+                                d = s.recv(1 << 16)
+                            except (socket.timeout, TimeoutError):
+                                break
+                            except ssl.SSLError as e:
+                                if "timed out" in str(e):
+                                    break
+                                raise
+                            if not d:
+                                closed = True
+                                break
+                            got.append(d)
+                    else:
+                        if r.get("tls"):
+                            s = cctx.wrap_socket(s)
+                        s.sendall(drv.s2b(r["data"]))
+                        if not r.get("tls"):
+                            s.shutdown(socket.SHUT_WR)      # the request is complete: a header block may end at EOF
+                        while True:
+                            d = s.recv(1 << 16)
+                            if not d:
+                                break
+                            got.append(d)
+                except (ConnectionResetError, BrokenPipeError) as e:
+                    if r.get("stall"):
+                        closed = True                       # the server let go of the connection
+                    else:
+                        err = type(e).__name__ + ": " + str(e)
                 except Exception as e:  # what a client would see
                     err = type(e).__name__ + ": " + str(e)
                 finally:
@@ -286,7 +317,7 @@ def register(OPS, drv):
                     if drv._logsink:
                         break
                     time.sleep(0.005)
-                res.append({"out": drv.b2s(b"".join(got)), "exc": err, "log": list(drv._logsink), "secs": round(dt, 4)})
+                res.append({"out": drv.b2s(b"".join(got)), "exc": err, "log": list(drv._logsink), "secs": round(dt, 4), "closed": closed})
         finally:
             srv.shutdown()
             srv.server_close()
